@@ -472,7 +472,8 @@ def _count(it, space, mask):
         return c
     c = z3.Int(f"count[{space.name},{_key(mask)}]")
     if it is not None:
-        it.ctx.axiom(z3.And(c >= 0, c <= space.n, z3.Implies(z3.And(space.n > 0, mask), c >= 1)))
+        # (the generic row stands for an existing row: for an empty table the axiom makes statements about it vacuous)
+        it.ctx.axiom(z3.And(c >= 0, c <= space.n, z3.Implies(mask, c >= 1)))
     return c
 
 
